@@ -22,7 +22,7 @@ ASSUMPTIONS = [
     "coverage and exclusivity by R3 (vf/ref/acl.py); cases where the ideal coverage and the implementation's documented winner rule disagree (known findings of C06) are skipped and counted",
     "programs yield rows in negated form only in the dedicated scenario (a negated line owned literally by one generator and through its positive rule by another)",
 ]
-FLOORS = {"quick": {"runs": 1200, "outcome_ok": 300, "outcome_generator_error": 150, "outcome_not_exclusive": 60, "block_contexts_entered": 2000, "annotated_runs": 80, "annotated_rows": 200, "cases_with_a_silent_generator": 300, "cases_with_three_differently_written_rules": 300, "comment_rows_yielded_inside_blocks": 200, "acl_comment_lines": 3000, "rules_mentioning_interface_not_at_start": 4000, "multi_line_yields_all_inside_the_first_line": 500, "cases_with_device_rows_claimed_by_several_generators": 800, "cases_with_a_negated_line_owned_literally_and_through_its_positive_rule": 300, "reused_generator_object_runs": 150, "tuple_yields_with_an_inline_list": 500},
+FLOORS = {"quick": {"runs": 1200, "outcome_ok": 300, "outcome_generator_error": 150, "outcome_not_exclusive": 60, "block_contexts_entered": 2000, "annotated_runs": 80, "annotated_rows": 200, "cases_with_a_silent_generator": 300, "cases_with_three_differently_written_rules": 300, "comment_rows_yielded_inside_blocks": 200, "acl_comment_lines": 3000, "rules_mentioning_interface_not_at_start": 4000, "multi_line_yields_all_inside_the_first_line": 500, "cases_with_device_rows_claimed_by_several_generators": 800, "cases_with_a_negated_line_owned_literally_and_through_its_positive_rule": 300, "reused_generator_object_runs": 150, "tuple_yields_with_an_inline_list": 300, "tuple_yields_with_a_lazy_iterable": 300, "cases_with_a_global_and_a_nested_local_rule_of_one_text": 300},
           "thorough": {"runs": 50000, "outcome_ok": 12000, "outcome_generator_error": 6000, "outcome_not_exclusive": 2500, "block_contexts_entered": 80000, "annotated_runs": 3000, "annotated_rows": 8000, "cases_with_a_silent_generator": 12000, "cases_with_three_differently_written_rules": 12000, "comment_rows_yielded_inside_blocks": 4000, "acl_comment_lines": 60000, "rules_mentioning_interface_not_at_start": 80000}}
 VENDORS = ["huawei", "cisco", "arista", "nexus"]
 HEADS = ["a", "b", "c", "interface", "router", "x", "ntp source-interface", "c passive-interface"]  # the word `interface` only makes a rule not deletable by default at its start
@@ -49,7 +49,10 @@ def gen_program(rng, depth=0, budget=None):
             out.append(["y", gen_row(rng)])
         elif r < 0.5:
             h, k = rng.choice(HEADS), rng.choice(KEYS)
-            if rng.random() < 0.3:
+            x_ = rng.random()
+            if x_ < 0.2:
+                out.append(["tg", h, rng.sample(KEYS, 2), rng.choice(["genexp", "map", "range", "keys"])])  # a tuple holding a lazy iterable of words
+            elif x_ < 0.45:
                 out.append(["tl", h, rng.sample(KEYS, 2)])  # a tuple holding an inline list: `h [ k1 k2 ]`
             else:
                 out.append(["t", [h, [k, rng.choice([1, 20, "z"])]]])
@@ -103,6 +106,9 @@ def ref_paths(program, prefix=()):
             out.append(prefix + (" ".join(str(w) for w in flat(st[1])),))
         elif k == "tl":
             out.append(prefix + ("%s [ %s ]" % (st[1], " ".join(st[2])),))
+        elif k == "tg":
+            words = ["3", "4", "5"] if st[3] == "range" else list(st[2])
+            out.append(prefix + ("%s %s" % (st[1], " ".join(words)),))
         elif k == "m":
             stack = []
             for d, row in st[1]:
@@ -148,6 +154,10 @@ def make_run(program, counter):
                 elif k == "tl":
                     from annet.generators import ParamsList
                     yield st[1], ParamsList(st[2])
+                elif k == "tg":
+                    lazy = {"genexp": (lambda: (str(x_) for x_ in st[2])), "map": (lambda: map(str, st[2])), "range": (lambda: range(3, 6)),
+                            "keys": (lambda: dict.fromkeys(st[2]).keys())}[st[3]]()
+                    yield st[1], lazy
                 elif k == "m":
                     body = "\n".join("  " * d + row for d, row in st[1])
                     if len(st) > 2 and st[2] == "quoted":
@@ -330,7 +340,7 @@ def exclusive_walk(tree, locals_, globals_, prefix, path=()):
     return None
 
 
-def make_case(seed, silent=False, ranked=False, negx=False):
+def make_case(seed, silent=False, ranked=False, negx=False, globx=False):
     rng = random.Random(seed)
     vname = rng.choice(VENDORS)
     ngen = rng.choice([1, 2, 2, 3, 4])
@@ -388,6 +398,20 @@ def make_case(seed, silent=False, ranked=False, negx=False):
         donor = srng.choice([g for g in gens if g["paths"]])
         acl, _ = acl_for(srng, [tuple(x_) for x_ in donor["paths"]], "all")
         gens.insert(srng.randrange(len(gens) + 1), {"name": "GenSilent", "program": [], "paths": [], "acl": acl, "mode": "all"})
+    if globx and len(gens) >= 2:
+        # one generator owns a line family everywhere through a %global rule, another owns the same family inside its block through a local rule
+        # of the same text: a line of the family generated inside that block has two owners
+        xrng = random.Random(seed ^ 0x61B)
+        a, b = xrng.sample(range(len(gens)), 2)
+        fam_ = xrng.choice(["descr", "remark"])
+        ra = A.AclRule("%s ~" % fam_, glob=True)
+        if xrng.random() < 0.3:
+            ra.explicit_cd, ra.cant_delete = [True], [True]
+        gens[a]["acl"] = list(gens[a]["acl"]) + [ra]
+        blk_ = ["zone", xrng.choice(KEYS)]
+        gens[b]["program"].append(["b", blk_, [["y", "%s %s" % (fam_, xrng.choice(KEYS))]]])
+        gens[b]["paths"] = [list(x_) for x_ in ref_paths(gens[b]["program"])]
+        gens[b]["acl"] = list(gens[b]["acl"]) + [A.AclRule("zone *", children=[A.AclRule("%s ~" % fam_)])]
     nrng = random.Random(seed ^ 0x9E6)
     if negx and len(gens) >= 2:
         # a generator owns the negated command itself (`undo lldp enable` as a line of configuration, named literally in its ACL) while
@@ -425,12 +449,14 @@ def add_legacy(seed, gens):
     return "legacy k1\nlegacy k2 x\n" if lrng.random() < 0.7 else "legacy k1\n"
 
 
-def check_case(seed, acc, silent=False, ranked=False, negx=False):
+def check_case(seed, acc, silent=False, ranked=False, negx=False, globx=False):
     from annet.generators import GeneratorError
     from annet.annlib.patching import AclNotExclusiveError, AclError
     from annet.vendors import registry_connector
     from vf import harness_gen as H
-    vname, gens, rng = make_case(seed, silent, ranked, negx)
+    vname, gens, rng = make_case(seed, silent, ranked, negx, globx)
+    if globx:
+        acc.count("cases_with_a_global_and_a_nested_local_rule_of_one_text")
     if negx:
         acc.count("cases_with_a_negated_line_owned_literally_and_through_its_positive_rule")
     if silent:
@@ -450,7 +476,7 @@ def check_case(seed, acc, silent=False, ranked=False, negx=False):
         text = render_indented(g["acl"], rng)
         texts.append(text)
         real.append(H.make_partial(g["name"], vname, text, make_run(g["program"], counter)))
-    w = {"seed": seed, "silent": silent, "ranked": ranked, "negx": negx, "vendor": vname, "generators": [{"name": g["name"], "program": g["program"], "acl": A.render(g["acl"]), "acl_mode": g["mode"]} for g in gens]}
+    w = {"seed": seed, "silent": silent, "ranked": ranked, "negx": negx, "globx": globx, "vendor": vname, "generators": [{"name": g["name"], "program": g["program"], "acl": A.render(g["acl"]), "acl_mode": g["mode"]} for g in gens]}
     exp = expected_outcome(gens, prefix)
     if exp[0] == "skip":
         acc.count("skipped_known_acl_mechanism")
@@ -469,6 +495,7 @@ def check_case(seed, acc, silent=False, ranked=False, negx=False):
         got = ("exception", "%s: %s" % (type(e).__name__, str(e)[:200]))
     acc.count("runs")
     acc.count("tuple_yields_with_an_inline_list", sum(1 for g in gens for st in iter_stmts(g["program"]) if st[0] == "tl"))
+    acc.count("tuple_yields_with_a_lazy_iterable", sum(1 for g in gens for st in iter_stmts(g["program"]) if st[0] == "tg"))
     acc.count("multi_line_yields_all_inside_the_first_line", sum(1 for g in gens for st in iter_stmts(g["program"]) if st[0] == "m" and all(d > 0 for d, _ in st[1][1:])))
     acc.count("comment_rows_yielded_inside_blocks", sum(g.get("comments", 0) for g in gens))
     acc.count("acl_comment_lines", sum(1 for t in texts for ln in t.split("\n") if ln.strip().startswith("#")))
@@ -550,7 +577,7 @@ def c10_rows(tree):
 
 def run_shard(spec, acc):
     if spec["mode"] == "replay":
-        check_case(spec["witness"]["seed"], acc, silent=bool(spec["witness"].get("silent")), ranked=bool(spec["witness"].get("ranked")), negx=bool(spec["witness"].get("negx")))
+        check_case(spec["witness"]["seed"], acc, silent=bool(spec["witness"].get("silent")), ranked=bool(spec["witness"].get("ranked")), negx=bool(spec["witness"].get("negx")), globx=bool(spec["witness"].get("globx")))
         return
     tier, k, n = spec["tier"], spec["shard"], spec["nshards"]
     total = 4000 if tier == "quick" else 80000
@@ -565,3 +592,5 @@ def run_shard(spec, acc):
             check_case(rng.randrange(1 << 48), acc, ranked=True)
         if j % 5 == 2:
             check_case(rng.randrange(1 << 48), acc, negx=True)
+        if j % 5 == 0:
+            check_case(rng.randrange(1 << 48), acc, globx=True)
